@@ -33,6 +33,8 @@ Steps(n) == T.steps[n]
 Msgs(x) == T.msgs[x]
 Log(n) == T.log[n]
 HasRef == "ref" \in DOMAIN T
+HasRefLog == "reflog" \in DOMAIN T
+Truncated == "truncated" \in DOMAIN T.flags /\ T.flags.truncated   \* max_records cut the record: later executions are legitimate
 
 (* recorded group of receiver tick j on connection x, as a set of message sequence numbers *)
 RecGroup(x, j) == {Msgs(x)[i].seq_out : i \in {i \in 1..Len(Msgs(x)) : Msgs(x)[i].seq_in = j}}
@@ -193,22 +195,42 @@ DoE(n) ==
 PreErr(t) ==
   LET c == t.cfg
       bad == {x \in DOMAIN c.conns : Len(t.msgs[x]) > Len(t.steps[c.conns[x].src])}
-  IN IF bad # {} THEN Err("MsgFromUnrecordedStep", CHOOSE x \in bad : TRUE, "len(msgs) <= len(steps[src])", "violated")
+  IN IF bad # {} /\ ~("tableonly" \in DOMAIN t.flags /\ t.flags.tableonly) THEN Err("MsgFromUnrecordedStep", CHOOSE x \in bad : TRUE, "len(msgs) <= len(steps[src])", "violated")
      ELSE NoErr
 
 Complete ==
   /\ \A n \in Nodes : kt[n] = Len(Steps(n)) /\ ke[n] = Len(Steps(n))
   /\ \A n \in Nodes : ~T.flags.log \/ lp[n] = Len(Log(n))
 
+(* Table-only comparison (records truncated by max_records cannot be timed by the law beyond the cut: they are only
+   compared, row by row and message by message, with the untruncated reference run; probe logs entirely) *)
+TableOnly == "tableonly" \in DOMAIN T.flags /\ T.flags.tableonly
+TableErr ==
+  LET badrow == {nk \in UNION {{<<n, k>> : k \in 1..Len(Steps(n))} : n \in Nodes} :
+                   nk[2] <= Len(T.ref.steps[nk[1]]) /\ ~RowsAgree(T.ref.steps[nk[1]][nk[2]], Steps(nk[1])[nk[2]])}
+      badmsg == {xi \in UNION {{<<x, i>> : i \in 1..Len(Msgs(x))} : x \in Conns} :
+                   xi[2] <= Len(T.ref.msgs[xi[1]]) /\ T.ref.msgs[xi[1]][xi[2]] # Msgs(xi[1])[xi[2]]}
+      badlog == {nj \in UNION {{<<n, j>> : j \in 1..Len(Log(n))} : n \in Nodes} :
+                   nj[2] <= Len(T.reflog[nj[1]]) /\ T.reflog[nj[1]][nj[2]] # Log(nj[1])[nj[2]]}
+  IN IF badrow # {} THEN LET nk == CHOOSE z \in badrow : TRUE IN Err("Deterministic", nk, T.ref.steps[nk[1]][nk[2]], Steps(nk[1])[nk[2]])
+     ELSE IF badmsg # {} THEN LET xi == CHOOSE z \in badmsg : TRUE IN Err("DeterministicMsg", xi, T.ref.msgs[xi[1]][xi[2]], Msgs(xi[1])[xi[2]])
+     ELSE IF badlog # {} THEN LET nj == CHOOSE z \in badlog : TRUE IN Err("InertLog", nj, T.reflog[nj[1]][nj[2]], Log(nj[1])[nj[2]])
+     ELSE NoErr
+
 FinalErr ==
-  IF err # NoErr THEN err
+  IF TableOnly THEN TableErr
+  ELSE IF err # NoErr THEN err
   ELSE IF \E n \in Nodes : kt[n] < Len(Steps(n))
   THEN LET n == CHOOSE n \in Nodes : kt[n] < Len(Steps(n)) IN
        Err("Stuck_RecordedStepNotTimable", <<n, kt[n]>>, "blocking inputs available", [kt |-> kt, ke |-> ke])
   ELSE IF \E n \in Nodes : ke[n] < Len(Steps(n))
   THEN LET n == CHOOSE n \in Nodes : ke[n] < Len(Steps(n)) IN
        Err("Stuck_RecordedStepNotExecutable", <<n, ke[n]>>, "groups and payloads available", [kt |-> kt, ke |-> ke, nsel |-> nsel])
-  ELSE IF T.flags.log /\ \E n \in Nodes : lp[n] < Len(Log(n))
+  ELSE IF HasRefLog /\ \E n \in Nodes : \E j \in 1..Len(Log(n)) : j <= Len(T.reflog[n]) /\ Log(n)[j] # T.reflog[n][j]
+  THEN LET n == CHOOSE n \in Nodes : \E j \in 1..Len(Log(n)) : j <= Len(T.reflog[n]) /\ Log(n)[j] # T.reflog[n][j]
+           j == CHOOSE j \in 1..Len(Log(n)) : j <= Len(T.reflog[n]) /\ Log(n)[j] # T.reflog[n][j]
+       IN Err("InertLog", <<n, j - 1>>, T.reflog[n][j], Log(n)[j])
+  ELSE IF T.flags.log /\ ~Truncated /\ \E n \in Nodes : lp[n] < Len(Log(n))
   THEN LET n == CHOOSE n \in Nodes : lp[n] < Len(Log(n)) IN
        Err("ExactlyOnce_ExtraExecution", <<n, Log(n)[lp[n] + 1].seq>>, Len(Steps(n)), Len(Log(n)))
   ELSE NoErr
@@ -253,7 +275,7 @@ TInit ==
 
 TNext ==
   /\ ~done
-  /\ IF err # NoErr \/ ~AnyEnabled THEN Finish
+  /\ IF err # NoErr \/ ~AnyEnabled \/ TableOnly THEN Finish
      ELSE IF \E n \in Nodes : TEn(n) THEN DoT(CHOOSE n \in Nodes : TEn(n))
      ELSE IF \E x \in Conns : SEn(x) THEN DoS(CHOOSE x \in Conns : SEn(x))
      ELSE DoE(CHOOSE n \in Nodes : EEn(n))
